@@ -238,22 +238,26 @@ def build_pointer_card(w):
     w.contract(CARD, '_infer_pointer_cardinality',
         params={'ptrcls': 'PtrC', 'ptrref': 'Opt[Obj]', 'irexpr': 'IrB', 'specified_required': 'Opt[bool]', 'specified_card': 'Opt[SCard]', 'is_mut_assignment': 'bool',
                 'shape_op': 'ShapeOp', 'source_ctx': 'Opt[Obj]', 'scope_tree': 'Obj', 'ctx': 'PCtx'},
-        ghost={'g_card': 'Card'}, returns='none',
-        requires=['implies(specified_card is not None, specified_card != SCard.Unknown)'],
+        ghost={'g_card': 'Card', 'g_up': 'bool', 'g_inf': 'Card'}, returns='none',
+        requires=['implies(specified_card is not None, specified_card != SCard.Unknown)', 'not g_up'],
         modifies=['PEnv.schema', '$alloc'],
-        ghost_after={'ptr_card = inferred_card': [('g_card', 'ptr_card')], 'ptr_card = _bounds_to_card(lower_bound, upper_bound)': [('g_card', 'ptr_card')]},
+        ghost_after={'ptr_card = inferred_card': [('g_card', 'ptr_card')], 'ptr_card = _bounds_to_card(lower_bound, upper_bound)': [('g_card', 'ptr_card')],
+                     'desc = ptrcls.get_verbosename(env.schema)': [('g_up', 'True')], 'inf_lower_bound, inf_upper_bound = _card_to_bounds(inferred_card)': [('g_inf', 'inferred_card')]},
         ensures=['known(g_card)',
                  # `required` is recorded only when the expression cannot be empty (for mutations the explicit `required` is left to the run-time check and NOT recorded)
                  'implies(%s, SZ(irexpr) >= lo(g_card))' % ASSIGN,
                  # `single` is recorded only when the expression yields at most one element (or the pointer is already known to be single in the schema)
                  'implies(%s and old(PSC(ptrcls, ctx.env.schema)) == SCard.Unknown and bounded(g_card), SZ(irexpr) <= 1)' % ASSIGN,
+                 # `+=` never yields a single pointer, `-=` never a required one (whatever the expression)
+                 'implies(shape_op == ShapeOp.APPEND, not bounded(g_card))', 'implies(shape_op == ShapeOp.SUBTRACT, lo(g_card) == 0)',
                  # an explicit specifier is obeyed
                  'implies(specified_card is not None and specified_card == SCard.One, bounded(g_card))',
                  'implies(specified_required is not None and specified_required and not is_mut_assignment, lo(g_card) == 1)'],
-        raises={'QueryError': {}},
+        # "possibly more than one element" is raised (g_up: the branch that builds that message) only when the inferred cardinality really is multi and `single` was specified
+        raises={'QueryError': {'ensures': ['implies(g_up, specified_card is not None and specified_card == SCard.One and not bounded(g_inf))']}},
         abstract={'if not ptrcls_schema_card.is_known() or ptrcls in ctx.env.pointer_specified_info:': dict(assigns={'ptr_card': 'Card'}, modifies=['PEnv.schema', '$alloc']),
                   'if ptrref and ctx.make_updates:': dict(assigns={}, modifies=['$alloc'])},
-        hints={'ext_funcs': {'infer_cardinality': IHP}, 'ghost_out': ['g_card']})
+        hints={'ext_funcs': {'infer_cardinality': IHP}, 'ghost_out': ['g_card', 'g_up', 'g_inf']})
 
 def build_funccall(w):
     """cardinality.__infer_func_call, functions that preserve the optionality / upper cardinality of their SET OF argument (assert_exists, assert_distinct, ...):
